@@ -135,15 +135,15 @@ theorem frame_count (p : PassC) (h : p.wf) (i : Nat) :
 
 /-! ## X axis -/
 
-/-- **X axis**: `n` values; the first is the header's start depth; each next value is the previous one moved by the
-header's spacing with one binary64 addition (`stop > start`) or subtraction (otherwise: towards a stop depth that is
-below the start, for a non-negative spacing). -/
+/-- **X axis**: `n` values; the first is the header's start depth; each next value is the previous one moved by
+`abs(header spacing)` with one binary64 addition (`stop > start`) or subtraction (otherwise). -/
 theorem x_axis (range : List Fl) (n : Nat) :
     (xSpec range n).length = n ∧
     (0 < n → (xSpec range n)[0]? = some (range.getD 0 ⟨false, 0⟩)) ∧
     (∀ i, i + 1 < n → ∃ xi, (xSpec range n)[i]? = some xi ∧
         (xSpec range n)[i + 1]? = some (if (range.getD 0 ⟨false, 0⟩).toRat < (range.getD 1 ⟨false, 0⟩).toRat
-                                          then fadd xi (range.getD 2 ⟨false, 0⟩) else fsub xi (range.getD 2 ⟨false, 0⟩))) := by
+                                          then fadd xi (fabs (range.getD 2 ⟨false, 0⟩))
+                                          else fsub xi (fabs (range.getD 2 ⟨false, 0⟩)))) := by
   refine ⟨by simp [xSpec], ?_, ?_⟩
   · intro hn
     simp [xSpec, hn, iter]
@@ -152,6 +152,36 @@ theorem x_axis (range : List Fl) (n : Nat) :
     · simp [xSpec, show i < n by omega]
     · simp only [xSpec, List.getElem?_map, List.getElem?_range hi, Option.map_some, iter_succ_outer]
       simp [xStep, isIncreasing]
+
+/-- every header number decoded by `bytes_to_float` has a non-negative magnitude -/
+theorem ibmWord_mag_nonneg (w : Word) : 0 ≤ (ibmWord w).mag := by
+  unfold ibmWord bytesToFloat
+  simp only []
+  have hp := Rat.le_of_lt (pow16_pos (w.b0 &&& 0x7f))
+  have hm : (0 : Rat) ≤ ((w.b1 <<< 16 ||| w.b2 <<< 8 ||| w.b3 : Nat) : Rat) := by exact_mod_cast Nat.zero_le _
+  have h : (0 : Rat) ≤ ((w.b1 <<< 16 ||| w.b2 <<< 8 ||| w.b3 : Nat) : Rat) / 0x1000000 * pow16 (w.b0 &&& 0x7f) := by
+    rw [Rat.div_def]
+    exact Rat.mul_nonneg (Rat.mul_nonneg hm (Rat.le_of_lt (Rat.inv_pos.2 (by decide)))) hp
+  split <;> exact h
+
+/-- **X axis moves TOWARDS the stop depth, for either sign of the header spacing**: with `d = |spacing| ≥ 0` (the
+magnitude of the header number, its sign bit is discarded), the exact target of a step from `x` is `x + d ≥ x` when
+`stop > start` and `x − d ≤ x` otherwise; the stored value is the binary64 rounding of that target (`x_step_exact`). -/
+theorem x_axis_towards_stop (range : List Fl) (x : Fl) (hsp : 0 ≤ (range.getD 2 ⟨false, 0⟩).mag) :
+    let d := (fabs (range.getD 2 ⟨false, 0⟩)).toRat
+    d = (range.getD 2 ⟨false, 0⟩).mag ∧ 0 ≤ d ∧
+    ((range.getD 0 ⟨false, 0⟩).toRat < (range.getD 1 ⟨false, 0⟩).toRat →
+        xStep range x = fadd x (fabs (range.getD 2 ⟨false, 0⟩)) ∧ x.toRat ≤ x.toRat + d) ∧
+    (¬ (range.getD 0 ⟨false, 0⟩).toRat < (range.getD 1 ⟨false, 0⟩).toRat →
+        xStep range x = fadd x (fneg (fabs (range.getD 2 ⟨false, 0⟩))) ∧
+        (fneg (fabs (range.getD 2 ⟨false, 0⟩))).toRat = -d ∧ x.toRat + -d ≤ x.toRat) := by
+  have hd : (fabs (range.getD 2 ⟨false, 0⟩)).toRat = (range.getD 2 ⟨false, 0⟩).mag := by simp [fabs, Fl.toRat]
+  simp only [hd]
+  refine ⟨trivial, hsp, ?_, ?_⟩
+  · intro h
+    refine ⟨by simp only [xStep, isIncreasing, decide_eq_true_eq]; rw [if_pos h], by grind⟩
+  · intro h
+    refine ⟨by simp only [xStep, isIncreasing, decide_eq_true_eq]; rw [if_neg h]; rfl, by simp [fneg, fabs, Fl.toRat], by grind⟩
 
 /-- one X step in exact terms: the target is `x ± spacing` as a rational, the result its binary64 rounding -/
 theorem x_step_exact (x sp : Fl) :
@@ -297,5 +327,11 @@ example : readBIT (encodeNoFinal [exPass]) = .ok (expectedFrom 0 [exPass]) :=
 example : (encode [exPass]).length = 360 := by decide +kernel
 example : frames exPass = 3 := by decide +kernel
 example : (xSpec (exPass.range.map ibmWord) 3).map Fl.toRat = [14950, 14950 - 1/4, 14950 - 1/2] := by decide +kernel
+
+/-- the hypothesis of `x_axis_towards_stop` holds for decoded header numbers -/
+example : (0 : Rat) ≤ ((exPass.range.map ibmWord).getD 2 ⟨false, 0⟩).mag := by decide +kernel
+
+/-- a header spacing recorded with a negative sign: the axis still moves from 100 towards 99 -/
+example : (xSpec [⟨false, 100⟩, ⟨false, 99⟩, ⟨true, 1 / 2⟩] 3).map Fl.toRat = [100, 199 / 2, 99] := by decide +kernel
 
 end TD.C13
